@@ -378,6 +378,30 @@ def _inlinable(fn):
     return True
 
 
+def _predicate_body(body):
+    """the condition C of a helper of the form `if C: return True` followed
+    by `return False` (or with an else branch, or with the constants
+    swapped: `not C`); None otherwise.  Only the truth value is preserved,
+    which is what a caller that branches on the result observes."""
+    def const(r, v):
+        return isinstance(r, ast.Return) and isinstance(r.value, ast.Constant) \
+            and r.value.value is v
+    if len(body) == 2 and isinstance(body[0], ast.If) \
+            and not body[0].orelse and len(body[0].body) == 1:
+        t, f = body[0].body[0], body[1]
+    elif len(body) == 1 and isinstance(body[0], ast.If) \
+            and len(body[0].body) == 1 and len(body[0].orelse) == 1:
+        t, f = body[0].body[0], body[0].orelse[0]
+    else:
+        return None
+    c = body[0].test
+    if const(t, True) and const(f, False):
+        return copy.deepcopy(c)
+    if const(t, False) and const(f, True):
+        return ast.UnaryOp(ast.Not(), copy.deepcopy(c))
+    return None
+
+
 def inline_helpers(module, cls, fn, depth=2, _counter=[0]):
     """Copy of ``fn`` in which statement-level calls of private helpers
     defined in the same class (``self._h(...)``) or module (``_h(...)``) are
@@ -517,6 +541,10 @@ def inline_helpers(module, cls, fn, depth=2, _counter=[0]):
         body = [s for s in target.body if not (
             isinstance(s, ast.Expr) and isinstance(s.value, ast.Constant)
             and isinstance(s.value.value, str))]
+        pred = _predicate_body(body)
+        if pred is not None:
+            # `if C: return True` / `return False`: the truth value of C
+            body = [ast.copy_location(ast.Return(pred), body[0])]
         if len(body) != 1 or not isinstance(body[0], ast.Return) \
                 or body[0].value is None:
             return None
